@@ -72,9 +72,15 @@ package engine
 //@ ensures [C13:all-locks-released] eHeld == 0 && cHeld == 0
 //@ loop range c.sources
 //@   invariant [C13:stopped-sources-removed] forall k:Key :: k in visited ==> !(k in c.sources)
-//@   invariant [C13:locks-held-while-stopping] eHeld == 2 && cHeld == 2
-//@ site (*engine.StoppableSource).Stop(_, _)
+//@   invariant [C13:locks-held-while-stopping] eHeld == 2 && cHeld == 2 && !stoppedOK
+//@ ghost stoppedOK bool = false
+//@ site (*engine.StoppableSource).Stop($s, _)
 //@   assert [C13:sources-stopped-under-write-lock] cHeld == 2
+//@   update stoppedOK = err == nil
+//@ optional site builtin.delete($mp, $k) as forget-source
+//@   where $mp == c.sources
+//@   assert [C13:watch-forgotten-only-after-its-source-stopped] stoppedOK && $k == wid
+//@   update stoppedOK = false
 //@ ensures [C13:stopped-controller-is-absent] err == nil ==> !(name in e.controllers)
 
 //@ func (*engine.ControllerEngine).IsRunning
@@ -256,10 +262,18 @@ package engine
 //@   where $mp == c.sources
 //@   assert [C13:sources-written-under-write-lock] cHeld == 2
 //@ ensures [C13:all-locks-released] eHeld == 0 && cHeld == 0
+//@ ghost stoppedOK bool = false
 //@ loop range ws #1
 //@   invariant [C13:write-lock-held-while-stopping] cHeld == 2 && eHeld == 0 && 0 <= stopped
-//@ site (*engine.StoppableSource).Stop(_, _)
+//@   invariant [C13:no-stopped-source-left-registered] !stoppedOK
+//@ site (*engine.StoppableSource).Stop($s, _)
 //@   assert [C13:sources-stopped-under-write-lock] cHeld == 2
+//@   assert [C13:stops-the-registered-source-of-the-watch] (wid in c.sources) && $s == c.sources[wid]
+//@   update stoppedOK = err == nil
+//@ optional site builtin.delete($mp, $k) as forget-source
+//@   where $mp == c.sources
+//@   assert [C13:watch-forgotten-only-after-its-source-stopped] stoppedOK && $k == wid
+//@   update stoppedOK = false
 
 //@ func (*engine.ControllerEngine).StartWatches
 //@ props C13
@@ -385,3 +399,14 @@ package engine
 //@ ensures [C13:all-locks-released] eHeld == 0 && cHeld == 0
 //@ ensures [C13:started-controller-is-present] err == nil ==> (name in e.controllers)
 
+
+// The goroutine that runs a controller stops the controller of that name only when its own
+// run ended in an error; a controller that returns normally (its context was cancelled by a
+// stop) must not stop whatever holds the name now.
+//@ func (*engine.ControllerEngine).Start$1
+//@ props C13
+//@ ghost runFailed bool = false
+//@ site (controller.TypedController).Start(_, _)
+//@   update runFailed = err != nil
+//@ optional site (*engine.ControllerEngine).Stop(_, _, $n)
+//@   assert [C13:controller-stopped-by-its-runner-only-after-a-failed-run] runFailed && $n == name
